@@ -54,7 +54,7 @@ def table(name, alpha="exact", late=True):
     df = pd.DataFrame({"a": a, "b": b, "c": c, "d": d}, index=idx, dtype=float)
     if late:
         k = 2 if n <= 6 else 5
-        df.iloc[:k, 2] = np.nan  # c is listed late
+        df.iloc[:k, 2] = 0.0 if late == "zero" else np.nan  # c is listed late (a vendor may quote 0 before)
     return df
 
 
@@ -167,6 +167,7 @@ def weigh(name):
         "erc": lambda: [A.WeighERC(lookback=D(days=9), covar_method="standard")],
         "meanvar": lambda: [A.WeighMeanVar(lookback=D(days=9), covar_method="standard")],
         "randomly": lambda: [A.WeighRandomly()],
+        "target_drift": lambda: [A.WeighTarget("wt_drift")],
     }
     return m[name]()
 
@@ -294,7 +295,10 @@ def additional(idx, spec, data):
     wt = pd.DataFrame(rows).T
     # a statistic that is only published every third date (e.g. weekly scores on daily data)
     stat_sparse = stat.iloc[::3]
-    ad = {"stat": stat, "signal": signal, "wt": wt, "stat_sparse": stat_sparse}
+    # targets that drift by a few millionths per date: on a large book every trade is tiny
+    # relative to the position it changes
+    wt_drift = pd.DataFrame({"a": [0.5 + 3e-6 * i for i in range(n)], "b": [0.4 - 3e-6 * i for i in range(n)]}, index=idx)
+    ad = {"stat": stat, "signal": signal, "wt": wt, "stat_sparse": stat_sparse, "wt_drift": wt_drift}
     if spec.get("spread") is not None:
         ad["bidoffer"] = pd.DataFrame(float(spec["spread"]), index=idx, columns=cols)
     return ad
@@ -355,7 +359,7 @@ def build(spec):
     """-> (Backtest, info)"""
     bt = rt.bt()
     A = bt.algos
-    data = table(spec.get("data", "d6"), spec.get("alpha", "exact"), late=spec.get("late", True))
+    data = table(spec.get("data", "d6"), spec.get("alpha", "exact"), late="zero" if spec.get("tree") == "flat_zero" else spec.get("late", True))
     if "prices" in spec:
         for k, v in spec["prices"].items():
             data[k] = np.array(v, dtype=float)
@@ -365,7 +369,7 @@ def build(spec):
     tree = spec.get("tree", "flat")
     st = dict(BASE)
     st.update(spec.get("stack", {}))
-    if tree == "flat":
+    if tree in ("flat", "flat_zero"):
         s = bt.Strategy("r", stack(st, idx))
     elif tree == "flat_decl":
         s = bt.Strategy("r", stack(st, idx), ["a", "b", "c", "d"])
@@ -474,6 +478,7 @@ def stacks(tier):
         add(gate="weekly", rebal="lazy", weigh="short")
         add(gate="daily", rebal="lazy", weigh="specified")
         add(gate="pte", select="these", weigh="specified")
+        add(gate="daily", weigh="target_drift")
         add(gate="weekly", mod="cash", weigh="short")
         add(gate="weekly", mod="limitdeltas", weigh="target")
     else:
@@ -512,6 +517,7 @@ def configs(tier, seed):
         out.append(("flat_eager_m", "d12", "exact", COSTS[1 + (k % 2)], k % 2 == 0, 1000000.0, False))
         out.append(("nested", "d25", "exact", COSTS[(k + 2) % len(COSTS)], True, 1000000.0, False))
         out.append(("deep", "d12", "exact", COSTS[1 + (k % 2) * 3], False, 1000000.0, False))
+        out.append(("flat_zero", "d12", "exact", COSTS[k], k % 2 == 0, 1000000.0, False))
     else:
         for ci, cost in enumerate(COSTS):
             # the full product of the menus
